@@ -53,8 +53,7 @@ def main():
         'not_applicable': na,
         'notes': 'See DESIGN.md. Known findings: known_findings.json. Seeded changes used to test the checks: seeded/.',
     }
-    if not na:
-        del m['not_applicable']
+    # all twenty are claimed: the list is kept, empty, so that the manifest says so explicitly
     path = os.path.join(VERIF, 'MANIFEST.json')
     json.dump(m, open(path, 'w'), indent=1, ensure_ascii=False)
     try:
